@@ -148,6 +148,52 @@ func ruleFilePlugin(c *Ctx, prefix string) {
 		if n == 0 {
 			c.R.bad(prefix+"FILE.SWAP", "table store", "-", "-", "no store to the served table found")
 		}
+		// a (re)load that reports success has replaced the table: no success exit bypasses the read-and-swap
+		// (a cache keyed on size / mtime / checksum answers "unchanged" for an update it cannot tell apart)
+		cands := append([]*ssa.Function{}, swapRoots...)
+		for _, fn := range c.P.SrcFuncs() {
+			if storeFnsSeen[fn] {
+				cands = appendUniqueFn(cands, fn)
+			}
+		}
+		for _, fn := range cands {
+			res := fn.Signature.Results()
+			if res.Len() == 0 || res.At(res.Len()-1).Type().String() != "error" {
+				continue
+			}
+			ex := NewExplorer(c.P, c.Pure, fn)
+			var bad []string
+			nOK := 0
+			ex.Hooks.Label = func(st *State, in ssa.Instruction) string {
+				if s, ok := in.(*ssa.Store); ok && s.Addr == ssa.Value(g) {
+					return "swapped"
+				}
+				return ""
+			}
+			ex.Hooks.Exit = func(st *State, in ssa.Instruction) {
+				ret, ok := in.(*ssa.Return)
+				if !ok || len(ret.Results) == 0 {
+					return
+				}
+				if !retIsNil(ex, st, ret.Results[len(ret.Results)-1]) {
+					return
+				}
+				nOK++
+				if !st.seen["swapped"] {
+					bad = append(bad, fmt.Sprintf("success is returned at %s on a path that did not replace the served table: an update of the file is reported as loaded while the old mapping stays in force", c.P.InstrPos(in)))
+				}
+			}
+			ex.Run()
+			key := shortFn(fn) + " success implies swap"
+			switch {
+			case len(bad) > 0:
+				c.R.bad(prefix+"FILE.RELOAD-COMPLETE", key, c.P.Pos(fn.Pos()), shortFn(fn), strings.Join(dedup(bad), "; "))
+			case nOK == 0:
+				c.R.bad(prefix+"FILE.RELOAD-COMPLETE", key, c.P.Pos(fn.Pos()), shortFn(fn), "no success exit found: shape not recognised")
+			default:
+				c.R.ok(prefix+"FILE.RELOAD-COMPLETE", key, c.P.Pos(fn.Pos()), shortFn(fn), fmt.Sprintf("each of the %d success exits is preceded by the swap of the served table", nOK))
+			}
+		}
 	}
 	// ---- loaders
 	for _, ld := range []struct {
